@@ -32,6 +32,15 @@ THEOREMS = {
             "Rot.C14_dated_restart_partial", "Rot.monoSfx_of_sorted", "Rot.rotate_generic", "Rot.chain_generic",
             "Rot.C14_F14_nonmonotone_order_fails", "Rot.C14_F15_restart_bound_fails",
             "Rot.C14_F18_lowered_max_never_shrinks", "Rot.rotate_index", "Rot.restart_inv", "Rot.applyMoves_get",
+            # Date / DateAndTime through restarts with configuration changes (Props/C14Dated.lean)
+            "Rot.C14_dated_invariant", "Rot.C14_dated_invariant_from_start", "Rot.C14_dated_no_clobber_run",
+            "Rot.C14_dated_exactly_one_file", "Rot.C14_dated_write_keeps_all_without_overwrite", "Rot.C14_dated_restart_leaves_files",
+            "Rot.C14_dated_same_second_restart_clobbers", "Rot.C14_dated_backwards_restart_breaks_order",
+            "Rot.C14_dated_backup_bound_across_restarts_fails",
+            # rendered names for any base file name (Props/C14Render.lean)
+            "Rot.C14_render_injective", "Rot.C14_render_collides_across_schemes", "Rot.C14_rendered_names_distinct_partial",
+            "Rot.C14_scan_sees_rotated", "Rot.C14_F26_no_extension_scan_blind", "Rot.C14_F27_append_option_scan_blind",
+            "Rot.C14_F26_blind_restart_loses_statements", "Rot.splitExt_spec", "Rot.getFilename_ext", "Rot.getFilename_noext",
             "Obligations.rot_extraction_complete", "Obligations.rot_size_facts_hold", "Obligations.rot_defaults", "Obligations.rot_enums",
             "Obligations.rot_deletes_all_excess", "Obligations.C14_bound_extracted", "Obligations.C14_extracted"],
     "C15": ["Rot.C15_grid", "Rot.C15_grid_least", "Rot.C15_first_point", "Rot.C15_separates", "Rot.C15_shares",
@@ -40,7 +49,7 @@ THEOREMS = {
             "Obligations.rot_time_extraction_complete", "Obligations.rot_time_facts_hold", "Obligations.rot_advances_from_schedule",
             "Obligations.C15_extracted"],
 }
-MODULES = {"C14": ["QuillModel.Props.C14"], "C15": ["QuillModel.Props.C15"]}
+MODULES = {"C14": ["QuillModel.Props.C14", "QuillModel.Props.C14Dated", "QuillModel.Props.C14Render"], "C15": ["QuillModel.Props.C15"]}
 OBLIG = {"C14": ["QuillModel.Obligations.RotSize"], "C15": ["QuillModel.Obligations.RotTime"]}
 
 C14_ORACLES = ("dup-id", "torn", "not-in-cur", "order", "not-suffix", "over-limit", "backup-bound", "backup-shrink", "ow-off-deleted")
